@@ -1179,7 +1179,7 @@ def subclass_cases(rng, quick):
             # only while the object still is the subclass instance
             keep = 0
             while keep < len(ops) and ops[keep].split(":")[0].split("=")[0] not in (
-                    "copy", "ucopy", "edgelist", "pcopy", "regraph", "saveload"):
+                    "copy", "ucopy", "edgelist", "pcopy", "regraph", "saveload", "split"):
                 keep += 1
             ops.insert(rng.randrange(0, keep + 1), "rethr")
         return ops
